@@ -374,6 +374,24 @@ Proof.
     + apply Rabs_le_both. fold E. lra.
 Qed.
 
+(** the floats just above 1 are spaced by 2^-23 *)
+Lemma fmt_le_1p22 : forall w, fmt w -> w < 1 + 3 * / 8388608 -> w <= 1 + / 4194304.
+Proof.
+  intros w Fw Hw. destruct (Rle_or_lt w (1 + / 4194304)) as [H|H]; [exact H|exfalso].
+  assert (Fc : fmt (1 + / 4194304)).
+  { replace (1 + / 4194304) with (IZR 4194305 / IZR 4194304) by lra.
+    apply (fmt_div_pow2 4194305 22); [lia|lia|reflexivity]. }
+  assert (Hs : succ radix2 fexp32 (1 + / 4194304) <= w).
+  { apply succ_le_lt; auto with typeclass_instances. }
+  rewrite succ_eq_pos in Hs by lra.
+  rewrite ulp_neq_0 in Hs by lra.
+  unfold cexp in Hs.
+  rewrite (mag_unique radix2 (1 + / 4194304) 1) in Hs.
+  - change (fexp32 1) with (- (23))%Z in Hs. rewrite (bpow2_neg 23) in Hs by lia.
+    change (2 ^ 23)%Z with 8388608%Z in Hs. lra.
+  - rewrite Rabs_pos_eq by lra. simpl. lra.
+Qed.
+
 (** ** numeric facts about [tan] (by interval arithmetic) *)
 
 Lemma tan_ge_x : forall x, 3 / 1000000 <= x <= 0.7854 -> 0.9999 * x <= tan x.
@@ -415,8 +433,10 @@ Definition P_HI : R := 13176795 / 4194304 * (1 + / 16777216) * (1 + / 16777216).
 Section Generic.
 
 Variable X_TOP W_EPS T_EPS : R.
-(** [X_TOP = 0.7853985], [W_EPS = T_EPS = 2^-20] in Proofs/TanfProofs.v *)
-Hypothesis X_TOP_lb : 0.7853983 <= X_TOP.
+(** Proofs/TanfProofs.v has [X_TOP = 0.7853985], [W_EPS = T_EPS = 2^-20], and sharper:
+    [T_EPS = 2^-23], from which Proofs/GlideCoeffProofs.v derives [W_EPS = 2^-22] on
+    [X_TOP = 0.78539828] (the largest argument reached is [pi_f32/4 (1+2^-24)^2]) *)
+Hypothesis X_TOP_lb : 0.78539828 <= X_TOP.
 Hypothesis W_EPS_range : 0 <= W_EPS <= / 1048576.
 Hypothesis T_EPS_le : T_EPS <= / 131072.
 Hypothesis tanf_range : forall x : f32, fin x -> 0 < R32 x <= X_TOP ->
@@ -430,7 +450,7 @@ Lemma from_params_ok : forall fs f0 : f32, glide_fs_ok fs -> fin f0 ->
   exists c x w,
     from_params fs f0 = Some c /\ good' c /\ 0.6 / R32 fs <= speed c /\
     P_LO * (R32 f0 / R32 fs) <= x <= P_HI * (R32 f0 / R32 fs) /\
-    0 < x <= 0.7853983 /\
+    0 < x <= 0.78539828 /\
     Rabs (w - tan x) <= T_EPS * tan x /\ 0 < w <= 1 + W_EPS /\
     R32 (k_b0 c) <= rnd ((1 + W_EPS) / 2) /\ R32 (k_a1 c) <= rnd (W_EPS / 2) /\
     Rabs (R32 (k_a1 c) - (w - 1) / (1 + w)) <= 2 * / 16777216.
@@ -476,7 +496,7 @@ Proof.
   set (xh := fdiv (fdiv (fmul TWO_PI f0) fs) f_2) in *.
   set (x := R32 xh) in *.
   assert (HX : P_LO * r <= x <= P_HI * r) by (unfold P_LO, P_HI; lra).
-  assert (HX1 : 6 / 1000000 <= x <= 0.7853983) by (unfold P_LO, P_HI in HX; lra).
+  assert (HX1 : 6 / 1000000 <= x <= 0.78539828) by (unfold P_LO, P_HI in HX; lra).
   (* omega_t = tanf x *)
   assert (HXT : 0 < x <= X_TOP) by lra.
   destruct (tanf_range xh FX HXT) as [FW HW].
@@ -703,44 +723,44 @@ Proof.
     + cbn [coeffs_used]. rewrite E. constructor; [exact Hc|exact IH2].
 Qed.
 
+(** C13_coeffs_good with everything known of the coefficient sets *)
+Theorem coeffs_cgood_gen : forall fs ops, glide_fs_ok fs -> Forall op_time_ok ops ->
+  exists g0, glide_new fs = Some g0 /\
+    (exists g, glide_after g0 ops = Some g) /\
+    Forall (cgood fs) (coeffs_used g0 ops).
+Proof.
+  intros fs ops Hfs _.
+  destruct (new_ok fs Hfs) as (g0 & E & Hg & Hc & _).
+  exists g0. split; [exact E|].
+  destruct (run_ok fs Hfs ops g0 Hg Hc) as [(g & Eg & _) HF].
+  split; [exists g; exact Eg|exact HF].
+Qed.
+
 (** C13_coeffs_good, for [good'] *)
 Theorem coeffs_good_gen : forall fs ops, glide_fs_ok fs -> Forall op_time_ok ops ->
   exists g0, glide_new fs = Some g0 /\
     (exists g, glide_after g0 ops = Some g) /\
     Forall (fun c => good' c /\ 0.6 / R32 fs <= speed c) (coeffs_used g0 ops).
 Proof.
-  intros fs ops Hfs _.
-  destruct (new_ok fs Hfs) as (g0 & E & Hg & Hc & _).
-  exists g0. split; [exact E|].
-  destruct (run_ok fs Hfs ops g0 Hg Hc) as [(g & Eg & _) HF].
-  split; [exists g; exact Eg|].
+  intros fs ops Hfs Hops.
+  destruct (coeffs_cgood_gen fs ops Hfs Hops) as (g0 & E & Hg & HF).
+  exists g0. split; [exact E|]. split; [exact Hg|].
   apply Forall_impl with (2 := HF). intros c (H1 & H2 & _). auto.
 Qed.
 
-(** the same with the sharp upper bounds (to choose the constants of [good]) *)
-Theorem coeffs_sharp_gen : forall fs ops, glide_fs_ok fs ->
-  exists g0, glide_new fs = Some g0 /\
-    Forall (fun c => R32 (k_b0 c) <= rnd ((1 + W_EPS) / 2) /\ R32 (k_a1 c) <= rnd (W_EPS / 2))
-           (coeffs_used g0 ops).
-Proof.
-  intros fs ops Hfs.
-  destruct (new_ok fs Hfs) as (g0 & E & Hg & Hc & _).
-  exists g0. split; [exact E|].
-  destruct (run_ok fs Hfs ops g0 Hg Hc) as [_ HF].
-  apply Forall_impl with (2 := HF). intros c (_ & _ & H3 & H4). auto.
-Qed.
-
-(** C13_coeffs_good as stated, for any [good] implied by [good'] *)
-Theorem coeffs_good_if : (forall c, good' c -> good c) -> forall fs ops,
-  glide_fs_ok fs -> Forall op_time_ok ops ->
+(** C13_coeffs_good as stated, whenever the sharp bounds imply [good] *)
+Theorem coeffs_good_if :
+  (forall c, good' c -> R32 (k_b0 c) <= rnd ((1 + W_EPS) / 2) ->
+             R32 (k_a1 c) <= rnd (W_EPS / 2) -> good c) ->
+  forall fs ops, glide_fs_ok fs -> Forall op_time_ok ops ->
   exists g0, glide_new fs = Some g0 /\
     (exists g, glide_after g0 ops = Some g) /\
     Forall (fun c => good c /\ 0.6 / R32 fs <= speed c) (coeffs_used g0 ops).
 Proof.
   intros Hgg fs ops Hfs Hops.
-  destruct (coeffs_good_gen fs ops Hfs Hops) as (g0 & E & Hg & HF).
+  destruct (coeffs_cgood_gen fs ops Hfs Hops) as (g0 & E & Hg & HF).
   exists g0. split; [exact E|]. split; [exact Hg|].
-  apply Forall_impl with (2 := HF). intros c [H1 H2]. auto.
+  apply Forall_impl with (2 := HF). intros c (H1 & H2 & H3 & H4). auto.
 Qed.
 
 (** states reachable from a new processor *)
@@ -803,7 +823,7 @@ Theorem pole_accuracy_gen : forall fs g0 t c,
   glide_fs_ok fs -> glide_new fs = Some g0 -> glide_time_ok t -> 100 <= R32 t * R32 fs ->
   coeffs_for g0 t = Some c ->
   let p0 := ideal_pole (R32 t * R32 fs) in
-  good' c /\ Rabs (pole c - p0) <= / 65536 * (1 - p0) + 4 * / 16777216.
+  cgood fs c /\ Rabs (pole c - p0) <= / 65536 * (1 - p0) + 4 * / 16777216.
 Proof.
   intros fs g0 t c Hfs E0 [Ft Ht] HN Ec p0.
   destruct (new_ok fs Hfs) as (g0' & E & Hg & _). rewrite E in E0. injection E0 as ->.
@@ -831,9 +851,9 @@ Proof.
   unfold coeffs_for in Ec. rewrite (H3 F1 Hfr) in Ec.
   destruct Hg as (Eg1 & _). rewrite Eg1 in Ec.
   destruct (from_params_ok fs x1 Hfs F1 Hfr)
-    as (c' & x & w & E' & Hgood & _ & HX & HX1 & Hacc & HW & _ & _ & HE).
+    as (c' & x & w & E' & Hgood & Hsp & HX & HX1 & Hacc & HW & Hsb & Hsa & HE).
   rewrite E' in Ec. injection Ec as ->.
-  split; [exact Hgood|].
+  split; [unfold cgood; auto|].
   fold f F in HX.
   (* x against z = PI / N *)
   set (q := 1 / (T * F)).
@@ -906,8 +926,11 @@ Proof.
   unfold pole. rewrite H1p. apply Rabs_le_both. lra.
 Qed.
 
-(** C14_pole_accuracy as stated, for any [good] implied by [good'] *)
-Theorem pole_accuracy_if : (forall c, good' c -> good c) -> forall fs g0 t c,
+(** C14_pole_accuracy as stated, whenever the sharp bounds imply [good] *)
+Theorem pole_accuracy_if :
+  (forall c, good' c -> R32 (k_b0 c) <= rnd ((1 + W_EPS) / 2) ->
+             R32 (k_a1 c) <= rnd (W_EPS / 2) -> good c) ->
+  forall fs g0 t c,
   glide_fs_ok fs -> glide_new fs = Some g0 -> glide_time_ok t -> 100 <= R32 t * R32 fs ->
   coeffs_for g0 t = Some c ->
   let p0 := ideal_pole (R32 t * R32 fs) in
@@ -915,7 +938,7 @@ Theorem pole_accuracy_if : (forall c, good' c -> good c) -> forall fs g0 t c,
 Proof.
   intros Hgg fs g0 t c Hfs E0 Ht HN Ec.
   generalize (pole_accuracy_gen fs g0 t c Hfs E0 Ht HN Ec). cbv zeta.
-  intros [H1 H2]. auto.
+  intros [(H1 & _ & H3 & H4) H2]. auto.
 Qed.
 
 (** C14_fastest, except for [t = -0.0] (see [fastest_counterexample] below) *)
@@ -1009,7 +1032,9 @@ Proof.
   { split; [apply fin_of_Z_small; lia|]. rewrite V. lra. }
   split.
   { unfold cx_g0. destruct (glide_new cx_fs) eqn:E; [reflexivity|].
-    exfalso. vm_compute in E. discriminate E. }
+    exfalso.
+    apply (f_equal (fun o : option glide => match o with Some _ => true | None => false end)) in E.
+    vm_compute in E. discriminate E. }
   split; [reflexivity|].
   split; [reflexivity|].
   split.
